@@ -51,10 +51,10 @@ func p1Trees() []wh.Build {
 }
 
 // p2Trees: names {a,b}, per-name state in {absent, file P, file Q, symlink->a,
-// symlink->b, dir{}, dir{c:P}, dir{c:Q}}.
+// symlink->b, dir{}, dir{c:P}, dir{c:Q}, dir{c/d:P}}.
 func p2Trees() []wh.Build {
 	names := []string{"a", "b"}
-	const nStates = 8
+	const nStates = 9
 	entry := func(name string, st int) []wh.Entry {
 		switch st {
 		case 1:
@@ -71,6 +71,9 @@ func p2Trees() []wh.Build {
 			return []wh.Entry{wh.F(name+"/c", contP)}
 		case 7:
 			return []wh.Entry{wh.F(name+"/c", contQ)}
+		case 8:
+			// two levels deep: what the directory holds is not its direct child
+			return []wh.Entry{wh.F(name+"/c/d", contP)}
 		}
 		return nil
 	}
